@@ -10,7 +10,7 @@ fn unhex(s: &str) -> Vec<u8> {
 }
 
 pub const SHAPES: [&str; 9] = ["seq", "key", "flowseq", "flowmap", "alt-block", "alt-flow", "block-flow", "key-per-level", "mix"];
-pub const APIS: [&str; 7] = ["iter", "load", "load_str_forget", "load_str_drop", "load_marked_drop", "built_drop", "emit"];
+pub const APIS: [&str; 8] = ["iter", "load", "load_str_forget", "load_str_drop", "load_marked_drop", "built_drop", "emit", "emit_ml"];
 
 /// Build the nested input. `mix` uses the opener word given (indices into OPENERS).
 pub const OPENERS: [&str; 5] = ["- ", "? ", "[", "{a: ", "- - "];
@@ -79,7 +79,12 @@ fn built_tree(shape: &str, depth: usize) -> Yaml<'static> {
             "alt-block" | "alt-flow" | "mix" => i % 2 == 1,
             _ => false,
         };
-        y = if map {
+        y = if map && shape == "key" {
+            // `? ` per level nests in *key* position
+            let mut m = hashlink::LinkedHashMap::new();
+            m.insert(y, Yaml::Value(Scalar::Null));
+            Yaml::Mapping(m)
+        } else if map {
             let mut m = hashlink::LinkedHashMap::new();
             m.insert(Yaml::Value(Scalar::String("a".into())), y);
             Yaml::Mapping(m)
@@ -148,7 +153,11 @@ pub fn scenario(shape: &str, api: &str, depth: usize, word: &[u8]) -> &'static s
         _ => {
             let y = built_tree(shape, depth);
             let mut out = String::new();
-            let r = YamlEmitter::new(&mut out).dump(&y);
+            let mut emitter = YamlEmitter::new(&mut out);
+            if api == "emit_ml" {
+                emitter.multiline_strings(true);
+            }
+            let r = emitter.dump(&y);
             std::mem::forget(y);
             if r.is_ok() {
                 "ok"
